@@ -136,6 +136,8 @@ RESLICE = {
     "std::convert::From::from", "std::convert::Into::into",
     "std::result::Result::<T, E>::unwrap", "std::result::Result::<T, E>::expect",
     "std::option::Option::<T>::unwrap", "std::option::Option::<T>::expect",
+    "std::option::Option::<T>::as_ref", "std::option::Option::<T>::as_mut",
+    "types::MutByteArray::as_mut_array", "types::ByteArray::as_array",
 }
 
 ZEROERS = {
